@@ -112,6 +112,20 @@ CHECKS["C05"] = {
     "technique": "bounded symbolic execution (CrossHair + z3) of operation histories + one inductive step over symbolic counter states",
 }
 
+CHECKS["C09"] = {
+    "category": "model_checking",
+    "text": "Every history of <= 4 (thorough 6) operations over {enter overlay, leave overlay, create generator 1/2, next 1/2, "
+            "close 1/2, plain call from the driver} (symbolic op list, sharded on its first three operations) is executed on the "
+            "real code; after each step the installed handler collection must be exactly the handlers of the open overlays and the "
+            "`gen > a_fn > a` overlay must have fired only for calls made by generator bodies; every distinct discrepancy on a path "
+            "is reported, classified by what is wrong. A second harness runs the driver inside an instrumented function and checks "
+            "its enclosing-function selector keeps matching.",
+    "design_ref": "DESIGN.md section 4, C09",
+    "note": "Garbage-collection 'drop' is not driven (explicit close only). Generators created while uninstrumented, or started "
+            "before the overlay was entered, are not asserted either way for the generator-ancestor selector (not stated).",
+    "technique": "bounded symbolic execution (CrossHair + z3) of generator/overlay histories vs an open-overlays-only model",
+}
+
 NOT_YET = {}
 
 
